@@ -25,9 +25,13 @@
 #include "json.hpp"
 #include "tape.hpp"
 
-// implemented in rc_driver.cpp (the only TU that includes rapidcheck)
+// implemented in rc_driver.cpp (the only TU that includes rapidcheck); not linked into libFuzzer builds
+#ifndef VERIF_FUZZ
 extern "C" int verif_rc_run(int (*body)(const unsigned char *, unsigned long, void *), void *ctx,
                             unsigned maxlen);
+#else
+inline int verif_rc_run(int (*)(const unsigned char *, unsigned long, void *), void *, unsigned) { return 1; }
+#endif
 
 namespace verif {
 
@@ -797,5 +801,60 @@ inline int harness_main(int argc, char **argv) {
 
 }  // namespace verif
 
+// ---- libFuzzer entry (built with -DVERIF_FUZZ by the "fuzz" flavour): the fuzzer's bytes are the tape, so coverage
+// feedback steers the same structured decoders that rapidcheck drives. The property's oracle runs inside the target;
+// a failure writes a replay file (tape + decoded case + signature) and traps, so libFuzzer saves the input.
+namespace verif {
+inline Runner &fuzz_runner() {
+  static Runner r;
+  return r;
+}
+inline void fuzz_flush() { fuzz_runner().write_out("fuzz"); }
+inline int fuzz_one(const uint8_t *d, size_t n) {
+  Runner &runner = fuzz_runner();
+  if (!runner.prop) {
+    const char *want = getenv("VERIF_FUZZ_PROP");
+    for (auto &p : registry())
+      if (!want || p.id == want) {
+        runner.prop = &p;
+        break;
+      }
+    if (!runner.prop) {
+      fprintf(stderr, "VERIF_FUZZ_PROP names no property of this harness\n");
+      _exit(2);
+    }
+    const char *out = getenv("VERIF_FUZZ_OUT");
+    if (out) runner.out_path = out;
+    signal(SIGALRM, SIG_DFL);  // libFuzzer has its own -timeout
+    atexit(fuzz_flush);
+  }
+  std::vector<uint8_t> tape(d, d + n);
+  Result r = runner.run_tape(tape);
+  alarm(0);
+  if ((runner.evaluations % 5000) == 0) fuzz_flush();
+  if (!r.ok) {
+    const char *dir = getenv("VERIF_FUZZ_ARTIFACTS");
+    J j = J::obj();
+    j.set("property", runner.prop->id);
+    j.set("signature", r.sig);
+    j.set("message", r.msg);
+    j.set("tape", to_hex(tape));
+    j.set("case", r.sample);
+    char name[64];
+    snprintf(name, sizeof name, "/failure-%016llx.json", (unsigned long long)fnv1a(r.sig + to_hex(tape)));
+    if (dir) write_file(std::string(dir) + name, j.dump());
+    fprintf(stderr, "VERIF-FUZZ-FAILURE sig=%s msg=%s\n", r.sig.c_str(), r.msg.c_str());
+    fuzz_flush();
+    __builtin_trap();
+  }
+  return 0;
+}
+}  // namespace verif
+
+#ifdef VERIF_FUZZ
+#define VERIF_MAIN \
+  extern "C" int LLVMFuzzerTestOneInput(const uint8_t *d, size_t n) { return verif::fuzz_one(d, n); }
+#else
 #define VERIF_MAIN \
   int main(int argc, char **argv) { return verif::harness_main(argc, argv); }
+#endif
